@@ -239,7 +239,11 @@ class Env:
                 raise TimeoutError("regex timed out (injected)")
 
             def finditer(self, *a, **k):
-                raise TimeoutError("regex timed out (injected)")
+                # the engine's finditer is lazy: the budget runs out while the caller iterates, not when the iterator is made
+                def gen():
+                    raise TimeoutError("regex timed out (injected)")
+                    yield None          # pragma: no cover
+                return gen()
         co.regex = Giving_up()
         self.undo.append(lambda: setattr(co, "regex", rx))
 
